@@ -1121,12 +1121,49 @@ func ExpandRoot(p *core.Prog, r *core.Report) {
 						}
 						break
 					}
+					if al, isAl := e.(*ssa.Alloc); isAl {
+						// a private copy of a schema the function received: `root := *schema; rootSchema = &root`
+						copied := false
+						for _, ref := range core.Refs(al) {
+							if st, isSt := ref.(*ssa.Store); isSt && st.Addr == ssa.Value(al) {
+								if ld, isLd := st.Val.(*ssa.UnOp); isLd && ld.Op == token.MUL {
+									if _, isP := ld.X.(*ssa.Parameter); isP {
+										copied = true
+									}
+								}
+							}
+						}
+						if copied {
+							continue
+						}
+					}
 					if _, isP := e.(*ssa.Parameter); !isP {
 						all = false
 					}
 				}
+				// the root must not be the very object being expanded: expansion overwrites it in place
+				aliased := false
+				if len(c.Common().Args) > 0 {
+					for _, e := range a.Edges {
+						for {
+							if mi, ok := e.(*ssa.MakeInterface); ok {
+								e = mi.X
+								continue
+							}
+							break
+						}
+						if idx != 0 && e == c.Common().Args[0] {
+							aliased = true
+						}
+					}
+				}
+				if aliased {
+					r.Bad(rule, key+":aliases-target", pos, g.Name()+" may be given, as the root to resolve against, the very schema it expands in place: a root-level $ref is replaced by its target and the definitions of the original are gone when a reference inside the expanded schema (a recursive one) is resolved later — {\"$ref\":\"#/definitions/node\",\"definitions\":{\"node\":{\"properties\":{\"next\":{\"$ref\":\"#/definitions/node\"}}}}} panics on {\"next\":{}} although every reference resolves")
+				} else {
+					r.OK(rule, key+":aliases-target", pos, "the root is not the object being expanded")
+				}
 				if all {
-					r.OK(rule, key, pos, "resolves against the root the enclosing function was given, or against the schema itself when none was given")
+					r.OK(rule, key, pos, "resolves against the root the enclosing function was given, or against (a copy of) the schema itself when none was given")
 				} else {
 					r.Unk(rule, key, pos, "the root argument is a join of values that are not all received by the function")
 				}
